@@ -8,7 +8,7 @@ open Scrapli Scrapli.Netconf.Store
 * `scan <hex>` → `m10 m11 after10 after11 rpc id` : the scanners on one byte string
   (`after*` and `id` are `N` when there is no match) — diffed against Go `regexp` by the harness.
 * `sess <1.0|1.1> <script>` → `dom reasons model pending spec` where the script is a `;`-separated list of
-  `C` (call) `P` (poll) `X` (expire) `R<hex>` (one read) and deliveries
+  `C` (call) `P` (poll) `X` (expire) `R<hex>` (one read) `Z` (counterfactual: empty the buffer) and deliveries
   `D|E:<body>:<tail>|<chunks>`, `D|R:<to>:<body>:<tail>|<chunks>`,
   `D|ER:<ebody>:<etail>:<to>:<body>:<tail>|<chunks>` (chunks: comma separated hex, `.` = none).
   `dom` = every delivery satisfies `Delivery.valid` and there are no reads outside deliveries;
@@ -23,6 +23,9 @@ def c08ver (s : String) : Option Ver :=
 inductive Item
   | ev (e : Ev)
   | dlv (d : Delivery)
+  /-- counterfactual only (`Z`): empty the read loop's buffer here. Used by the harness to decide
+  whether an anomaly of a later call is explained by bytes a known finding left in the buffer. -/
+  | reset
 
 def parseUnit (s : String) : Option Burst :=
   match s.splitOn ":" with
@@ -36,6 +39,7 @@ def parseItem (s : String) : Option Item :=
   if s == "C" then some (.ev .call)
   else if s == "P" then some (.ev .poll)
   else if s == "X" then some (.ev .expire)
+  else if s == "Z" then some .reset
   else if s.startsWith "R" then (fromHex (s.drop 1).toString).map fun b => .ev (.read b)
   else match s.splitOn "|" with
     | ["D", u, cs] => do pure (.dlv ⟨← parseUnit u, ← hexList cs⟩)
@@ -44,6 +48,11 @@ def parseItem (s : String) : Option Item :=
 def itemEvents : Item → List Ev
   | .ev e => [e]
   | .dlv d => d.chunks.map .read
+  | .reset => []
+
+def runItem (v : Ver) (c : Client) : Item → Client
+  | .reset => { c with st := { c.st with buf := [] } }
+  | it => run v c (itemEvents it)
 
 def showResults (rs : List (Nat × Option Bytes)) : String :=
   if rs.isEmpty then "." else
@@ -74,6 +83,7 @@ def specStep (s : SpecSt) : Item → SpecSt
     | none => s
     | some id => { s with pending := none, results := s.results ++ [(id, none)] }
   | .dlv d => { s with delivered := s.delivered ++ d.burst.replies }
+  | .reset => s
 
 /-- the hypotheses of `goodReply` / `goodEcho` / `Delivery.valid` that fail, joined by `+`
 (`ok` if none) -/
@@ -116,10 +126,11 @@ def handleC08 : List String → String
   | ["sess", v, script] =>
     match c08ver v, (script.splitOn ";").mapM parseItem with
     | some v, some items =>
-      let dom := items.all fun it => match it with | .dlv d => d.valid v | .ev (.read _) => false | _ => true
+      let dom := items.all fun it => match it with
+        | .dlv d => d.valid v | .ev (.read _) => false | .reset => false | _ => true
       let rs := items.filterMap fun it => match it with | .dlv d => some (deliveryReason v d) | _ => none
       let reasons := if rs.isEmpty then "." else ",".intercalate rs
-      let c := run v init (items.flatMap itemEvents)
+      let c := items.foldl (runItem v) init
       let sp := items.foldl specStep ⟨Gen.Netconf.initialMessageID, none, [], []⟩
       let pend := match c.pending with | some id => toString id | none => "-"
       s!"{b2s dom} {reasons} {showResults c.results} {pend} {showResults sp.results}"
